@@ -115,9 +115,16 @@ def check_state(name, st, vis, maxcor, check_y, restarted=False):
         cs = min(cosines)
         Hy = np.asarray(st.hess_inv.matvec(y_), dtype=float)
         err = float(np.abs(Hy - s_).max()) / max(float(np.abs(s_).max()), 1e-300)
-        # every pair the sweeps go through amplifies the rounding by about 1 + 1/cos(s_j, y_j) (first met on a history rewritten by an
-        # indefinite objective: cosines 0.005 and 0.013, error 3e-10); beyond 1e-6 the comparison says nothing and is not made
+        # the rounding of the two sweeps is amplified by the conditioning of the operator: every pair contributes a factor of about
+        # 1 + 1/cos(s_j, y_j) (first met on a history rewritten by an indefinite objective: cosines 0.005 and 0.013, error 3e-10), and
+        # in all by about the condition number of the dense matrix (a newest pair with cos 1.4e-4: cond 4e16, error 1.4e-4 although the
+        # equation holds exactly in rational arithmetic); beyond 1e-6 the comparison says nothing and is not made
         tol = 100 * 2.3e-16 * (1.0 + ny / ns) * float(np.prod([1.0 + 1.0 / max(c_, 1e-300) for c_ in cosines])) if cs > 0 else np.inf
+        try:
+            Hd = st.hess_inv.todense()
+            tol = max(tol, 1e3 * 2.3e-16 * float(np.linalg.cond(Hd))) if np.isfinite(Hd).all() else np.inf
+        except Exception:  # noqa: BLE001
+            tol = np.inf
         if np.isfinite(Hy).all() and cs > 0 and tol <= 1e-6 and err > tol:
             return f"{name}: the operator does not map the newest y to the newest s (secant equation, relative error {err:.2e})"
     H = st.hess_inv.todense()
